@@ -7,7 +7,7 @@
 (*  obs = [state, epoch, imm,                                              *)
 (*         certs = << [id, parent, epoch, kind, entity, signers,           *)
 (*                     avk_rec_epochs, verifies] >>   in creation order    *)
-(*         open  = << [entity, certified, expired, epoch] >>               *)
+(*         open  = << [entity, certified, expired, past_expiry, epoch] >>  *)
 (*         sigs  = << [entity, label, reg_epoch, owner, sigma] >>          *)
 (*         arts  = << [entity, cert] >> ]                                  *)
 (*                                                                         *)
@@ -122,7 +122,8 @@ NewCertRules(p, o) ==
             \* StopsOnGap: never certifies across a skipped epoch
             /\ p.certs # <<>> /\ c.epoch - MaxOf({p.certs[j].epoch : j \in DOMAIN p.certs}) <= 1
             \* sealed for an open message that was open, with signatures of parties registered for the epoch
-            /\ \E m \in DOMAIN p.open : p.open[m].entity = c.entity /\ ~p.open[m].expired
+            \* (past_expiry: the expiry date of the row had passed before the tick, whatever the flag says)
+            /\ \E m \in DOMAIN p.open : p.open[m].entity = c.entity /\ ~p.open[m].expired /\ ~p.open[m].past_expiry
                                         /\ (~p.open[m].certified \/ c.entity \in crashed)
             /\ Range(c.signers) # {}
 
